@@ -6,7 +6,7 @@
 From CB Require Import Spec Unstable.
 From Coq Require Import Permutation.
 From CBP Require Import Step RefDefs C02Lemmas Arith AbsLemmas AllOps FaultDefs FaultPrims FaultDropA FaultDropB FaultUser
-     Iters DrainP ExtendIo CmpHash Ctors PhysMoves MoreOps UnstableEq Access Views RefTruncate FillExtend FaultFrame SpecCorollaries ValueCorollaries FaultGeneric FaultHistory FaultClone.
+     Iters DrainP ExtendIo CmpHash Ctors PhysMoves MoreOps UnstableEq Access Views RefTruncate FillExtend FaultFrame SpecCorollaries ValueCorollaries FaultGeneric FaultHistory FaultConserve FaultDebugOps FaultClone.
 
 
 Theorem C06_fill_with :
@@ -99,6 +99,23 @@ Theorem C06_history_lookers_conserve :
   Permutation (abs s ++ fl_caller L ++ fl_destroyed L) (fl_entered L).
 Proof. exact (fault_history_no_leak_looks). Qed.
 Print Assumptions C06_history_lookers_conserve.
+
+Theorem C06_history_nothing_lost :
+  forall (s0 : cbuf) (w0 : world),
+  WF s0 -> plan_nonneg (fault w0) -> NoDup (FaultDefs.ids (abs s0)) ->
+  (forall e : elem, In e (abs s0) -> eid e < next_id w0) ->
+  forall (ops : list op) (rs : list (outcome out)) (s : cbuf) (w : world) (L : fledger) (fk : fkind) (k : Z),
+  fault_run s0 w0 ops rs s w L -> fault w0 = Some (fk, k) -> fk <> FDrop ->
+  Permutation (abs s ++ fl_caller L ++ fl_destroyed L) (fl_entered L).
+Proof. exact (fault_history_conserving). Qed.
+Print Assumptions C06_history_nothing_lost.
+
+Theorem C06_all_pairs :
+  forall (o : op) (fk : fkind),
+  ledger_op o = true -> may_call o fk = true -> covered' o fk = true ->
+  fault_safe_when (fun s : cbuf => nopanic_spec o s /\ plain_pre o) o fk.
+Proof. exact (fault_collect_all). Qed.
+Print Assumptions C06_all_pairs.
 
 Theorem C06_frame :
   forall o fk s w k,
